@@ -636,7 +636,7 @@ class Ref(object):
         if X.done and X.active is not None and X.main is fm:
             # marked done from outside its own run while still entered: clean up
             self.deactivate_aux(X)
-            F.actives = list(F.active.outline)
+            self.resume(F)
             self.events[pos][6] = False
             return False
         if X.done:
@@ -672,11 +672,23 @@ class Ref(object):
         self.recur(X)
         if X.done:
             self.deactivate_aux(X)
-            F.actives = list(F.active.outline)
+            self.resume(F)
             self.events[pos][6] = False
             return False
         self.events[pos][6] = True
         return True
+
+    def resume(self, F):
+        """Full outline again, unless another conditional aux of a frame in the outline still runs:
+        then the outline stays cut at the topmost such main frame."""
+        F.actives = list(F.active.outline)
+        for fm in F.actives:
+            for ra in fm.lists["precur"]:
+                if ra.kind == "auxif":
+                    X = self.framers[ra.a["name"]]
+                    if not X.done and X.active is not None and X.main is fm:
+                        F.actives = list(fm.head)
+                        return
 
     # ------------------------------------------------------------------ runner
     def send(self, T, control):
